@@ -282,7 +282,13 @@ func (m *LeaseManager) Release(resourceID string) {
 		leaseKey := m.leaseKey(resourceID)
 		ctx, cancel := context.WithTimeout(context.Background(), 5*time.Second)
 		defer cancel()
-		if _, err := m.client.Delete(ctx, leaseKey); err != nil {
+		// Delete only while the key still names this broker: between the local
+		// clear above and this call the session may have expired and another
+		// broker may have acquired the lease, which must not be removed.
+		if _, err := m.client.Txn(ctx).
+			If(clientv3.Compare(clientv3.Value(leaseKey), "=", m.brokerID)).
+			Then(clientv3.OpDelete(leaseKey)).
+			Commit(); err != nil {
 			m.logger.Warn(fmt.Sprintf("failed to delete %s lease key", m.resourceKind),
 				"key", leaseKey, "error", err)
 		}
